@@ -124,6 +124,8 @@ pub struct SchedSpec {
     pub replay: Option<Vec<Preempt>>,
     pub faults: FaultMode,
     pub trace: bool,
+    /// chance per million scheduling decisions that a runnable thread is stalled (see dsim)
+    pub stall_ppm: u32,
 }
 
 #[derive(Clone, Debug, Serialize, Deserialize, PartialEq)]
@@ -269,6 +271,7 @@ where
         fairness: 200,
         record_trace: sched.trace,
         code_rng_seed: sched.code_seed,
+        stall_ppm: if sched.replay.is_some() { 0 } else { sched.stall_ppm },
     };
     dsim::run(cfg, body)
 }
@@ -432,6 +435,9 @@ pub fn sched_for(scn: &dyn DynScenario, seed: u64, run: u64) -> SchedSpec {
         replay: None,
         faults: FaultMode::Random { seed: dsim::rng::splitmix(seed ^ run.wrapping_mul(0x9E37) ^ 0xfa17), rate_pm },
         trace: false,
+        // a quarter of the runs inject thread stalls (a runnable thread that is not scheduled for a
+        // while, as if the OS had descheduled it), about one per 100..1000 decisions
+        stall_ppm: *r.pick(&[0u32, 0, 0, 0, 0, 0, 1_000, 10_000]),
     }
 }
 
@@ -551,6 +557,9 @@ pub fn worker_main(scn: &'static dyn DynScenario, opts: &BatchOpts, offset: u64,
         if let Some(sim) = &rep.sim {
             a.steps += sim.steps;
             a.switches += sim.switches;
+            if sim.stalls > 0 {
+                *a.faults.entry("thread_stall".to_string()).or_insert(0) += sim.stalls;
+            }
             a.sim_nanos += sim.sim_nanos;
             a.max_steps_seen = a.max_steps_seen.max(sim.steps);
             a.panics_seen += sim.panics.len() as u64;
@@ -773,7 +782,7 @@ fn minimise_and_write(scn: &dyn DynScenario, opts: &BatchOpts, f: FoundViolation
     let was_known = matches_known(&known, scn.property(), scn.name(), &f.violation).is_some();
     let same_kind = |v: &Option<Violation>| -> bool { same_class(v, &class) && v.as_ref().map(|v| matches_known(&known, scn.property(), scn.name(), v).is_some() == was_known).unwrap_or(false) };
     let attempt = |plan: &Value, pre: &[Preempt], faults: &[FaultDecision]| -> Option<(Violation, Vec<Preempt>, Vec<FaultDecision>)> {
-        let sched = SchedSpec { code_seed, seed: 0, strategy: Strategy::Default, replay: Some(pre.to_vec()), faults: FaultMode::Scripted(faults.to_vec()), trace: false };
+        let sched = SchedSpec { code_seed, seed: 0, strategy: Strategy::Default, replay: Some(pre.to_vec()), faults: FaultMode::Scripted(faults.to_vec()), trace: false, stall_ppm: 0 };
         let rep = scn.execute_json(plan, &sched);
         flush_epoch();
         if same_kind(&rep.violation) {
@@ -824,7 +833,7 @@ fn minimise_and_write(scn: &dyn DynScenario, opts: &BatchOpts, f: FoundViolation
                     continue 'plan;
                 }
                 for s in 0..6u64 {
-                    let sched = SchedSpec { code_seed, seed: dsim::rng::splitmix(s ^ f.sched.seed), strategy: Strategy::Random, replay: None, faults: FaultMode::Scripted(faults.clone()), trace: false };
+                    let sched = SchedSpec { code_seed, seed: dsim::rng::splitmix(s ^ f.sched.seed), strategy: Strategy::Random, replay: None, faults: FaultMode::Scripted(faults.clone()), trace: false, stall_ppm: f.sched.stall_ppm };
                     let rep = scn.execute_json(&cand, &sched);
                     flush_epoch();
                     if same_kind(&rep.violation) {
@@ -1002,7 +1011,7 @@ pub fn replay_file(scn: &dyn DynScenario, path: &str, verbose: bool) -> Result<O
         flush_epoch();
         return Ok(rep.violation);
     }
-    let sched = SchedSpec { code_seed: rf.code_seed, seed: 0, strategy: Strategy::Default, replay: Some(from_pj(&rf.preemptions)), faults: FaultMode::Scripted(rf.faults.clone()), trace: verbose };
+    let sched = SchedSpec { code_seed: rf.code_seed, seed: 0, strategy: Strategy::Default, replay: Some(from_pj(&rf.preemptions)), faults: FaultMode::Scripted(rf.faults.clone()), trace: verbose, stall_ppm: 0 };
     let rep = scn.execute_json(&rf.plan, &sched);
     flush_epoch();
     if let Some(sim) = &rep.sim {
@@ -1179,7 +1188,7 @@ pub fn selftest_worker(scn: &'static dyn DynScenario, seed: u64, runs: u64, offs
             }
             bad += 1;
         } else if let Some(sim) = &a.sim {
-            let rs = SchedSpec { code_seed: sched.code_seed, seed: 0, strategy: Strategy::Default, replay: Some(sim.preemptions.clone()), faults: FaultMode::Scripted(a.faults.clone()), trace: false };
+            let rs = SchedSpec { code_seed: sched.code_seed, seed: 0, strategy: Strategy::Default, replay: Some(sim.preemptions.clone()), faults: FaultMode::Scripted(a.faults.clone()), trace: false, stall_ppm: 0 };
             let c = scn.execute_json(&plan, &rs);
             flush_epoch();
             let ok = c.sim.as_ref().map(|s| s.schedule_hash == sim.schedule_hash && s.unused_replay.is_empty()).unwrap_or(false) && c.observations == a.observations;
